@@ -34,12 +34,22 @@ def model(c, runs):
         dict(name="sensitivity: credit_silent (discarded bytes counted but no adjustment sent): the sender starves", module="Channel",
              expect="NoStarvation",
              cfg=cfg_text(constants=dict(one, OpsA={"sendall_err"}, Codes={2}, SendN=5, ReadSizes={2}, Mut="credit_silent"), invariants=INVS)),
+        dict(name="the receiving side has sent its own EOF (shutdown_write) and keeps reading: still credited", module="Channel",
+             cfg=cfg_text(constants=dict(one, OpsA={"sendall", "sendall_err"}, UsersB={"b1"}, OpsB={"shutdown_write"}, ReadSizes={2}),
+                          invariants=INVS)),
+        dict(name="sensitivity: eof_sent_stops_credit (_check_add_window returns 0 once the side sent EOF)", module="Channel",
+             expect="Conservation|NoStarvation",
+             cfg=cfg_text(constants=dict(one, OpsA={"sendall", "sendall_err"}, UsersB={"b1"}, OpsB={"shutdown_write"}, ReadSizes={2},
+                                         Mut="eof_sent_stops_credit"), invariants=INVS)),
         dict(name="liveness, pinned discard: the sender starves", module="Channel", expect="<liveness>",
              cfg=cfg_text(constants=dict(one, OpsA={"sendall_err"}, Codes={1, 2}, FixCredit=False, MaxCalls=2, SendN=5, ReadSizes={2}),
                           invariants=[], **LIVE)),
     ]
     if not c.quick:
         jobs += [
+            dict(name="liveness: the receiving side has sent its own EOF and keeps reading", module="Channel", kw={"timeout": 850, "workers": 4},
+                 cfg=cfg_text(constants=dict(one, OpsA={"sendall", "sendall_err"}, UsersB={"b1"}, OpsB={"shutdown_write"}, ReadSizes={2}),
+                              invariants=[], **LIVE)),
             dict(name="liveness: packet > window (window 2 packet 3 threshold 1)", module="Channel",
                  cfg=cfg_text(constants=dict(one, OpsA={"sendall", "sendall_err"}, W0=2, MaxPkt=3, PeerMax=3, Thresh=1, MaxCalls=2), invariants=[], **LIVE)),
             dict(name="safety: 2 senders (sendall, sendall_stderr with types 1,2), looping readers", module="Channel",
@@ -79,6 +89,9 @@ def model(c, runs):
 
 WINS = [32768, 32769, 40960, 65535, 70000]
 FIXED = [
+    # the receiving side shuts down ITS OWN sending direction and keeps reading: the peer must still get its window back
+    {"win": 32768, "pkt": 32768, "threads": {"a1": [("sendall", 70000)], "b1": [("shutdown_write",)]}},
+    {"win": 32769, "pkt": 4096, "threads": {"a1": [("sendall_err", 40000)], "b1": [("shutdown_write",)]}},
     # ONLY discarded-type extended data, for more than a full window, the readers blocked in recv / recv_stderr all the time
     {"win": 32768, "pkt": 8192, "threads": {"a1": [("sendall_ext", 40000, 2)]}},
     {"win": 32768, "pkt": 2 ** 32 - 1, "threads": {"a1": [("sendall_ext", 32769, 0)]}},
@@ -113,6 +126,8 @@ def programs(rnd, n, quick=False):
             if rnd.random() < 0.3:
                 ops.append((rnd.choice(["send", "send_err"]), 1000))
             th["a%d" % (i + 1)] = ops
+        if rnd.random() < 0.25:           # the receiver has nothing more to say (its own EOF) but keeps reading
+            th["b1"] = [("shutdown_write",)]
         th["dB_out"] = [("recv_loop", rnd.choice([1024, 4096, 32768, 65536]))]
         th["dB_err"] = [("recv_err_loop", rnd.choice([512, 4096, 65536]))]
         progs.append({"par": par, "threads": th})
